@@ -102,18 +102,19 @@ type CallPlan struct {
 	RespTrailer http.Header
 	LateHeader  http.Header // set after the first Send (documented no-op)
 
-	HProg             []HOp
-	HErr              *ErrPlan // returned at the end of HProg (nil: success)
-	HPanic            *PanicPlan
-	KeepReceiving     bool   // bidi handler: keep calling Receive after a non-EOF error
-	ReuseRequestOf    string // unary: send the very connect.Request object of that earlier call again
-	InterceptDeadline bool   // Deadline is set by a client interceptor; the caller\'s own context has CallerDeadline (0: none)
-	CallerDeadline    time.Duration
-	InterceptorErr    bool // the plan's error is returned by the outermost handler interceptor, user code never runs
-	CloseTwice        bool // server-stream client calls Close twice
-	panicAfterCtx     bool
-	ReturnSendErr     bool     // the handler returns the error of a failed Send (as handlers do)
-	RecoverErr        *ErrPlan // what the WithRecover function returns
+	HProg               []HOp
+	HErr                *ErrPlan // returned at the end of HProg (nil: success)
+	HPanic              *PanicPlan
+	KeepReceiving       bool   // bidi handler: keep calling Receive after a non-EOF error
+	ReuseRequestOf      string // unary: send the very connect.Request object of that earlier call again
+	InterceptDeadline   bool   // Deadline is set by a client interceptor; the caller\'s own context has CallerDeadline (0: none)
+	CallerDeadline      time.Duration
+	InterceptorErr      bool // the plan's error is returned by the outermost handler interceptor, user code never runs
+	InterceptorErrAfter bool // client-stream: the outermost handler interceptor returns the plan\'s error after the handler has sent its response
+	CloseTwice          bool // server-stream client calls Close twice
+	panicAfterCtx       bool
+	ReturnSendErr       bool     // the handler returns the error of a failed Send (as handlers do)
+	RecoverErr          *ErrPlan // what the WithRecover function returns
 
 	CProg    []COp // sender (or only) task
 	CProgRcv []COp // receiver task when Split
